@@ -1384,6 +1384,7 @@ class Component(SupportComplexDataType, CanBeVaries):
         kwargs = {'name': child_name}
         if reference is not None:
             kwargs['datatype'] = reference[2]
+            kwargs['reference'] = reference
         return super(Component, self).parse_child(text, **kwargs)
 
     def parse_children(self, text, **kwargs):
